@@ -41,11 +41,15 @@ impl ChainService {
             crossbeam::channel::tick(std::time::Duration::from_secs(60));
 
         loop {
+            #[cfg(feature = "verif-hooks")]
+            crate::verif::point("service:idle", &Default::default());
             select! {
                 recv(self.process_block_rx) -> msg => match msg {
                     Ok(Request { responder, arguments: lonely_block }) => {
                         // asynchronous_process_block doesn't interact with tx-pool,
                         // no need to pause tx-pool's chunk_process here.
+                        #[cfg(feature = "verif-hooks")]
+                        crate::verif::point("service:recv", &lonely_block.block().hash());
                         let _trace_now = minstant::Instant::now();
                         self.asynchronous_process_block(lonely_block);
                         if let Some(handle) = ckb_metrics::handle(){
@@ -123,6 +127,8 @@ impl ChainService {
                     "block {}-{} verify failed: {:?}",
                     block_number, block_hash, err
                 );
+                #[cfg(feature = "verif-hooks")]
+                crate::verif::point("service:mark-invalid", &block_hash);
                 self.shared
                     .insert_block_status(lonely_block.block().hash(), BlockStatus::BLOCK_INVALID);
                 lonely_block.execute_callback(Err(err));
@@ -130,6 +136,8 @@ impl ChainService {
             }
         }
 
+        #[cfg(feature = "verif-hooks")]
+        crate::verif::point("service:insert-block", &block_hash);
         if let Err(err) = self.insert_block(&lonely_block) {
             error!(
                 "insert block {}-{} failed: {:?}",
